@@ -644,10 +644,12 @@ func isSafeForReverseSuffix(re *syntax.Regexp) bool {
 		// 1. Reverse NFA mixed-edge bug — fixed in v0.12.9 (fillMixedState)
 		// 2. Find() rightmost semantics — fixed: non-matchStartZero uses
 		//    bytes.Index (leftmost) instead of LastIndex (rightmost)
-		// Check for internal anchors (^ or $ not at expected positions)
-		for i := 1; i < len(re.Sub)-1; i++ {
+		// No anchors anywhere: the reversed automaton the reverse DFA runs on
+		// follows assertions as plain epsilons, so a leading (?m)^ (or any other
+		// anchor) would simply be ignored by the reverse scan.
+		for i := 0; i < len(re.Sub); i++ {
 			if containsAnchor(re.Sub[i]) {
-				return false // Internal anchor - not safe
+				return false
 			}
 		}
 		return true
